@@ -15,6 +15,7 @@ import (
 	_ "verif/checks/c11"
 	_ "verif/checks/c12"
 	_ "verif/checks/c13"
+	_ "verif/checks/c14"
 	_ "verif/checks/c15"
 	_ "verif/checks/c16"
 	_ "verif/checks/c17"
